@@ -90,7 +90,7 @@ func (gsvd *GSVD) Factorize(a, b Matrix, kind GSVDKind) (ok bool) {
 	if gsvd.c != c {
 		panic(ErrShape)
 	}
-	var jobU, jobV, jobQ lapack.GSVDJob
+	jobU, jobV, jobQ := lapack.GSVDNone, lapack.GSVDNone, lapack.GSVDNone
 	switch {
 	default:
 		panic("gsvd: bad input kind")
